@@ -239,19 +239,8 @@ Section V1.
 Variable b : backend.
 Variable st : store.
 
-(* go-cdb-mods: the writer hashes a key with the streaming spooky hasher (cdbHash, writer.go),
-   the reader with the one-shot spooky.Hash32 (cdb.go find); for github.com/dgryski/go-spooky the two
-   differ exactly on inputs of 96..191 bytes, so FindNext never finds a key of such a length
-   although the file holds it (observed; see the finding recorded for C16/C02). *)
-Definition cdb_hash_gap (key : bytes) : bool := (96 <=? nlen key) && (nlen key <=? 191).
-Definition get_b (key : bytes) : list row :=
-  match b with
-  | CDB => if cdb_hash_gap key then [] else get st key
-  | _ => get st key
-  end.
-
 Definition for_each_v1 {S} (key : bytes) (f : cb S) (s : S) : S * bool :=
-  let '(s', stt) := iter_rows f (get_b key) s in (s', for_each_err b stt).
+  let '(s', stt) := iter_rows f (get st key) s in (s', for_each_err b stt).
 
 (* DataReader.ForEachResourceRecord *)
 Definition for_each_rr_v1 {S} (name loc : bytes) (f : cb S) (s : S) : S * bool :=
